@@ -4,6 +4,11 @@ import (
 	"fmt"
 	"strings"
 
+	"github.com/ipld/go-ipld-prime/datamodel"
+	"github.com/ipld/go-ipld-prime/node/basicnode"
+	ipldschema "github.com/ipld/go-ipld-prime/schema"
+	"github.com/storacha/go-ucanto/core/ipld"
+
 	"github.com/storacha/go-ucanto/core/delegation"
 	"github.com/storacha/go-ucanto/core/invocation"
 	"github.com/storacha/go-ucanto/core/result/failure"
@@ -280,13 +285,88 @@ func ResolveCapability[Caveats any](descriptor Descriptor[Caveats], claimed ucan
 		return nil, NewMalformedCapabilityError(source.Capability(), err)
 	}
 
-	// TODO: inherit missing fields
-	nb, err := descriptor.Nb().Read(claimed.Nb())
+	// caveats set in the delegation take precedence, fields it leaves unset
+	// are inherited from the claimed capability.
+	caveats, ierr := inheritCaveats(claimed.Nb(), source.Capability().Nb())
+	if ierr != nil {
+		return nil, NewMalformedCapabilityError(source.Capability(), ierr)
+	}
+
+	nb, err := descriptor.Nb().Read(caveats)
 	if err != nil {
 		return nil, NewMalformedCapabilityError(source.Capability(), err)
 	}
 
 	return ucan.NewCapability(can, uri, nb), nil
+}
+
+// inheritCaveats overlays the caveats of a delegated capability on top of the
+// caveats of the claimed capability. If the delegated capability does not set
+// any caveats the claimed caveats are returned unchanged.
+func inheritCaveats(claimed any, delegated any) (any, error) {
+	dn, ok := delegated.(ipld.Node)
+	if !ok || dn == nil || dn.Kind() != datamodel.Kind_Map || dn.Length() == 0 {
+		return claimed, nil
+	}
+
+	var cn ipld.Node
+	switch c := claimed.(type) {
+	case ipld.Node:
+		cn = c
+	case ipld.Builder:
+		n, err := c.ToIPLD()
+		if err != nil {
+			return nil, err
+		}
+		cn = n
+	}
+	if tn, ok := cn.(ipldschema.TypedNode); ok {
+		cn = tn.Representation()
+	}
+	if cn == nil || cn.Kind() != datamodel.Kind_Map {
+		return dn, nil
+	}
+
+	nb := basicnode.Prototype.Map.NewBuilder()
+	ma, err := nb.BeginMap(cn.Length() + dn.Length())
+	if err != nil {
+		return nil, err
+	}
+	for it := cn.MapIterator(); !it.Done(); {
+		k, v, err := it.Next()
+		if err != nil {
+			return nil, err
+		}
+		key, err := k.AsString()
+		if err != nil {
+			return nil, err
+		}
+		if _, err := dn.LookupByString(key); err == nil {
+			continue
+		}
+		if err := ma.AssembleKey().AssignString(key); err != nil {
+			return nil, err
+		}
+		if err := ma.AssembleValue().AssignNode(v); err != nil {
+			return nil, err
+		}
+	}
+	for it := dn.MapIterator(); !it.Done(); {
+		k, v, err := it.Next()
+		if err != nil {
+			return nil, err
+		}
+		if err := ma.AssembleKey().AssignNode(k); err != nil {
+			return nil, err
+		}
+		if err := ma.AssembleValue().AssignNode(v); err != nil {
+			return nil, err
+		}
+	}
+	if err := ma.Finish(); err != nil {
+		return nil, err
+	}
+	return nb.Build(), nil
 }
 
 // ResolveAbility resolves ability `pattern` of the delegated capability from
